@@ -1286,41 +1286,26 @@ func errorHelperText(u *Universe, info *types.Info, h *ast.FuncDecl, hSrc []byte
 		t := "{\nvar " + fresh + " error = " + text(x.ret.Results[n-1]) + "\n_ = " + fresh + "\n" + string(handler) + "\n}"
 		beds = append(beds, ed{off(x.ret.Pos()) - bb, off(x.ret.End()) - bb, t})
 	}
-	// normal exit: assign the values
-	var names, vals []string
-	for i, id := range lhs[:n-1] {
-		if id.Name == "_" {
-			if _, isCall := ast.Unparen(final.Results[i]).(*ast.CallExpr); isCall {
-				return "", false
-			}
-			continue
-		}
-		names = append(names, id.Name)
+	// normal exit: the values go to fresh temporaries declared before the block (H's own declarations may shadow the
+	// caller's names inside it); the caller's variables are assigned after the block
+	var temps, vals []string
+	for i := range lhs[:n-1] {
+		temps = append(temps, fmt.Sprintf("znVal%d_%d", off(s.call.Pos()), i))
 		vals = append(vals, text(final.Results[i]))
 	}
 	asg := ""
-	if len(names) > 0 {
-		// the assigned names must not be shadowed by H's own declarations
-		for _, nm := range names {
-			if declaredInH[nm] {
-				return "", false
-			}
-		}
-		asg = strings.Join(names, ", ") + " = " + strings.Join(vals, ", ")
-	}
-	// the error variable is nil after the normal exit (assigned after the block: H usually has an `err` of its own)
-	after := ""
-	if s.kind == "assign" || info.Defs[errID] == nil {
-		after = errID.Name + " = nil\n"
+	if len(temps) > 0 {
+		asg = strings.Join(temps, ", ") + " = " + strings.Join(vals, ", ")
 	}
 	beds = append(beds, ed{off(final.Pos()) - bb, off(final.End()) - bb, asg})
 	sort.Slice(beds, func(i, j int) bool { return beds[i].from > beds[j].from })
 	for _, e := range beds {
 		body = append(body[:e.from], append([]byte(e.text), body[e.to:]...)...)
 	}
-	// ---- declarations of the variables the call statement introduces
+	// ---- declarations of the temporaries
 	var sb strings.Builder
 	k := 0
+	nilErr := fmt.Sprintf("znNil%d", off(s.call.Pos()))
 	for _, fld := range h.Type.Results.List {
 		rt := string(hSrc[off(fld.Type.Pos()):off(fld.Type.End())])
 		cnt := len(fld.Names)
@@ -1328,10 +1313,29 @@ func errorHelperText(u *Universe, info *types.Info, h *ast.FuncDecl, hSrc []byte
 			cnt = 1
 		}
 		for j := 0; j < cnt; j++ {
-			id := lhs[k]
+			if k < n-1 {
+				sb.WriteString("var " + temps[k] + " " + rt + "\n")
+			} else {
+				sb.WriteString("var " + nilErr + " " + rt + "\n")
+			}
 			k++
-			if s.kind == "define" && info.Defs[id] != nil && id.Name != "_" {
-				sb.WriteString("var " + id.Name + " " + rt + "\n_ = " + id.Name + "\n")
+		}
+	}
+	after := ""
+	{
+		var ls []string
+		for _, id := range lhs {
+			ls = append(ls, id.Name)
+		}
+		op := " = "
+		if s.kind == "define" {
+			op = " := "
+		}
+		after = strings.Join(ls, ", ") + op + strings.Join(append(append([]string{}, temps...), nilErr), ", ") + "\n"
+		// the error test that followed is gone: keep every assigned name "used"
+		for _, id := range lhs {
+			if id.Name != "_" {
+				after += "_ = " + id.Name + "\n"
 			}
 		}
 	}
